@@ -214,6 +214,13 @@ Definition set_tx v b s := mkMux (m_rx s) (m_conns s) (m_err s) (m_closed s) (m_
 Definition init_mux (rx : bytes) (qlen : N) (opened : list N) : mux_st :=
   mkMux rx (map (fun id => mkConn id [] false true false 0) opened) None false false qlen [] false.
 
+(* the capacity of every connection's incoming queue for a Mux made WithReadQueueLength(configured): the
+   configured length if the source sizes the channel with the qlen field, else the default constant
+   (MuxConsts.queue_cap_is_configured, read from mux.go on every run) *)
+Definition eff_qlen (configured : N) : N := if queue_cap_is_configured then configured else read_queue_len.
+Definition init_mux_cfg (rx : bytes) (configured : N) (opened : list N) : mux_st :=
+  init_mux rx (eff_qlen configured) opened.
+
 Definition find_conn (id : N) (cs : list conn_st) : option conn_st :=
   find (fun c => c_id c =? id) cs.
 Definition upd_conn (id : N) (f : conn_st -> conn_st) (cs : list conn_st) : list conn_st :=
